@@ -467,6 +467,25 @@ def r14_6(ctx):
                       and z.fields.get("seq") == Sym("info.seq"))
                 ctx.require(ok, f"get_network_key:v{v}", f"v{v} get_network_key returns {z!r:.120}; key/tx_counter/seq must come from the exported key and the key "
                             "info's frame counter / sequence number", func=m)
+            # which key is exported: the current network key / the trust-centre link key (slot 0, not derived), and the TC key read returns it
+            for meth, want_type in (("get_network_key", "NETWORK"), ("get_tc_link_key", "TC_LINK")):
+                m = c.method(meth)
+                for p in px.explore(m, lambda: (self_obj(c, {}), {})):
+                    ex = [e for e in p.events if e.kind == "await" and e.what == "self.exportKey"]
+                    if p.terminal != "return" or len(ex) != 1:
+                        ctx.require(False, f"{meth}:export:v{v}", f"v{v} {meth}: {p.terminal} after {len(ex)} exportKey request(s); one export and a key returned", func=m)
+                        continue
+                    cx = ex[0].kwargs.get("context", ex[0].args[0] if ex[0].args else None)
+                    if not isinstance(cx, Obj) or "core_key_type" not in cx.fields:
+                        raise AnalysisError(f"v{v} {meth}: the export context is {cx!r:.80}, not a structure this rule can read")
+                    kt, ki, dt = cx.fields.get("core_key_type"), cx.fields.get("key_index", 0), cx.fields.get("derived_type")
+                    ok = isinstance(kt, Member) and kt.name == want_type and ki == 0 and (dt is None or (isinstance(dt, Member) and dt.value == 0))
+                    ctx.require(ok, f"{meth}:export-context:v{v}", f"v{v} {meth} exports key type {kt!r}, index {ki!r}, derivation {dt!r}; the restored "
+                                f"{'network key is the current one' if want_type == 'NETWORK' else 'trust-centre link key'} ({want_type}, index 0, not derived)", func=m)
+                    if meth == "get_tc_link_key":
+                        z = p.value
+                        ctx.require(isinstance(z, Obj) and z.fields.get("key") == Sym("exported_key"), f"get_tc_link_key:v{v}",
+                                    f"v{v} get_tc_link_key returns {z!r:.100}; the key must be the exported one", func=m)
 
 
 @rule("R14.9", ["C14"], "T-FUN", floor=11)
@@ -536,59 +555,61 @@ def r14_10(ctx):
     es = repo.cls(NAMED, "EmberStatus").members()
     sl = repo.cls(NAMED, "sl_Status").members()
     for version in VERSIONS:
-        hcls = repo.cls(f"bellows.ezsp.v{version}", f"EZSPv{version}")
-        wl = hcls.method("write_link_keys")
-        ok_status = sl["OK"] if version >= 14 else es["SUCCESS"]
-        got = []
+      own = getattr(repo.cls(f"bellows.ezsp.v{version}", f"EZSPv{version}").method("write_link_keys").cls, "name", "") == f"EZSPv{version}"
+      for nkeys in ((2, 20) if own else (2,)):
+            hcls = repo.cls(f"bellows.ezsp.v{version}", f"EZSPv{version}")
+            wl = hcls.method("write_link_keys")
+            ok_status = sl["OK"] if version >= 14 else es["SUCCESS"]
+            got = []
 
-        def import_model(px, t, a, k, fr):
-            got.append((t.split(".")[-1], dict(k), list(a)))
-            return (ok_status,)
+            def import_model(px, t, a, k, fr):
+                got.append((t.split(".")[-1], dict(k), list(a)))
+                return (ok_status,)
 
-        def write_link_keys_model(px, t, a, k, fr):
-            handler = self_obj(hcls, {}, tag="handler")
-            return px.call_function(wl, handler, list(a), dict(k), fr)
+            def write_link_keys_model(px, t, a, k, fr):
+                handler = self_obj(hcls, {}, tag="handler")
+                return px.call_function(wl, handler, list(a), dict(k), fr)
 
-        models = [wrap("t.KeyData"), wrap("t.EUI64"), wrap("t.Channels"), ("util.zha_security", lambda px, t, a, k, fr: Sym("isc")),
-                  ("os.urandom", lambda px, t, a, k, fr: b"\x01" * 16), ("*.write_link_keys", write_link_keys_model),
-                  ("self.importLinkKey", import_model), ("self.addOrUpdateKeyTableEntry", import_model), ("self.setKeyTableEntry", import_model)]
-        px = PX(repo, models=models, inline=same_class(stop=("reset_network_info", "_reset", "_ensure_network_running")), max_paths=5000)
+            models = [wrap("t.KeyData"), wrap("t.EUI64"), wrap("t.Channels"), ("util.zha_security", lambda px, t, a, k, fr: Sym("isc")),
+                      ("os.urandom", lambda px, t, a, k, fr: b"\x01" * 16), ("*.write_link_keys", write_link_keys_model),
+                      ("self.importLinkKey", import_model), ("self.addOrUpdateKeyTableEntry", import_model), ("self.setKeyTableEntry", import_model)]
+            px = PX(repo, models=models, inline=same_class(stop=("reset_network_info", "_reset", "_ensure_network_running")), max_paths=5000)
 
-        def setup():
-            got.clear()
-            keys = [Obj(TypeRef("Key"), {"key": Sym(f"keydata{i}"), "partner_ieee": Obj(TypeRef("EUI64"), {}, tag=f"partner{i}"), "tx_counter": 0, "rx_counter": 0,
-                                         "seq": 0}, tag=f"key{i}") for i in (1, 2)]
-            ni = Obj(TypeRef("NetworkInfo"), {"stack_specific": {"ezsp": {"hashed_tclk": "aa"}}, "network_key": Obj(TypeRef("Key"), {}, tag="ni.network_key"),
-                                              "tc_link_key": Obj(TypeRef("Key"), {}, tag="ni.tc_link_key"), "children": [], "nwk_addresses": {},
-                                              "key_table": keys}, tag="ni")
-            ez = Obj(TypeRef("EZSP"), {"ezsp_version": version}, tag="self._ezsp")
-            return self_obj(app_cls(ctx), {"_ezsp": ez}), {"network_info": ni, "node_info": Obj(TypeRef("NodeInfo"), {}, tag="node")}
+            def setup():
+                got.clear()
+                keys = [Obj(TypeRef("Key"), {"key": Sym(f"keydata{i}"), "partner_ieee": Obj(TypeRef("EUI64"), {}, tag=f"partner{i}"), "tx_counter": 0, "rx_counter": 0,
+                                             "seq": 0}, tag=f"key{i}") for i in range(1, nkeys + 1)]
+                ni = Obj(TypeRef("NetworkInfo"), {"stack_specific": {"ezsp": {"hashed_tclk": "aa"}}, "network_key": Obj(TypeRef("Key"), {}, tag="ni.network_key"),
+                                                  "tc_link_key": Obj(TypeRef("Key"), {}, tag="ni.tc_link_key"), "children": [], "nwk_addresses": {},
+                                                  "key_table": keys}, tag="ni")
+                ez = Obj(TypeRef("EZSP"), {"ezsp_version": version}, tag="self._ezsp")
+                return self_obj(app_cls(ctx), {"_ezsp": ez}), {"network_info": ni, "node_info": Obj(TypeRef("NodeInfo"), {}, tag="node")}
 
-        done = 0
-        for p in px.explore(f, setup):
-            if p.terminal != "return":
-                continue
-            done += 1
-            ctx.paths += 1
-            # the events of this path (got is shared between paths: rebuild from the trace)
-            cmds = [e for e in p.events if e.kind == "await" and e.what.split(".")[-1] in ("importLinkKey", "addOrUpdateKeyTableEntry", "setKeyTableEntry")]
-            seen = []
-            for e in cmds:
-                vals = list(e.args) + list(e.kwargs.values())
-                partner = next((getattr(v, "tag", None) for v in vals if str(getattr(v, "tag", "")).startswith("partner")), None)
-                key = next((getattr(v, "tag", None) for v in vals if str(getattr(v, "tag", "")).startswith("keydata")), None)
-                seen.append((partner, key))
-            flags = [e.kwargs.get("linkKey") for e in cmds if "linkKey" in e.kwargs]
-            ctx.require(all(v is True for v in flags), f"link-key-flag:v{version}", f"v{version}: the key-table writes carry linkKey={flags}; a link key is written as a "
-                        "link key (True), not as a master key", func=wl, trace=p.trace(20))
-            idxs = [e.kwargs.get("index") for e in cmds if "index" in e.kwargs]
-            ctx.require(idxs in ([], [0, 1]), f"link-key-index:v{version}", f"v{version}: the two link keys are written at table indices {idxs}; the table is "
-                        "filled from index 0 (a shifted start wastes a slot and pushes the last key out of a full table)", func=wl, trace=p.trace(30))
-            want = [("partner1", "keydata1"), ("partner2", "keydata2")]
-            ctx.require(seen == want, f"link-keys:v{version}", f"v{version}: a backup with two link keys {want} leads to the key-table writes {seen} "
-                        f"({[e.what.split('.')[-1] for e in cmds]}); every key must be written once, in order, with its own partner and key data",
-                        func=wl, trace=p.trace(30))
-        ctx.anchor(done >= 1, f"write_network_info completes (v{version})")
+            done = 0
+            for p in px.explore(f, setup):
+                if p.terminal != "return":
+                    continue
+                done += 1
+                ctx.paths += 1
+                # the events of this path (got is shared between paths: rebuild from the trace)
+                cmds = [e for e in p.events if e.kind == "await" and e.what.split(".")[-1] in ("importLinkKey", "addOrUpdateKeyTableEntry", "setKeyTableEntry")]
+                seen = []
+                for e in cmds:
+                    vals = list(e.args) + list(e.kwargs.values())
+                    partner = next((getattr(v, "tag", None) for v in vals if str(getattr(v, "tag", "")).startswith("partner")), None)
+                    key = next((getattr(v, "tag", None) for v in vals if str(getattr(v, "tag", "")).startswith("keydata")), None)
+                    seen.append((partner, key))
+                flags = [e.kwargs.get("linkKey") for e in cmds if "linkKey" in e.kwargs]
+                ctx.require(all(v is True for v in flags), f"link-key-flag:v{version}", f"v{version}: the key-table writes carry linkKey={flags}; a link key is written as a "
+                            "link key (True), not as a master key", func=wl, trace=p.trace(20))
+                idxs = [e.kwargs.get("index") for e in cmds if "index" in e.kwargs]
+                ctx.require(idxs in ([], list(range(nkeys))), f"link-key-index:v{version}", f"v{version}: {nkeys} link keys are written at table indices {idxs}; the table is "
+                            "filled from index 0 (a shifted start wastes a slot and pushes the last key out of a full table)", func=wl, trace=p.trace(30))
+                want = [(f"partner{i}", f"keydata{i}") for i in range(1, nkeys + 1)]
+                ctx.require(seen == want, f"link-keys:v{version}", f"v{version}: a backup with {nkeys} link keys {want[:3]}.. leads to the key-table writes {seen[:24]} "
+                            f"({[e.what.split('.')[-1] for e in cmds]}); every key must be written once, in order, with its own partner and key data",
+                            func=wl, trace=p.trace(30))
+            ctx.anchor(done >= 1, f"write_network_info completes (v{version})")
 
 
 @rule("R14.11", ["C14"], "T-FUN", floor=12)
